@@ -199,3 +199,82 @@ def check_close_idempotent(ctx, rule):
             ok = got.startswith("Ok(") and [x[1] for x in sent] == ["CloseRequest(self.doc)"]
             spec = "one close request for its own document"
         ctx.check(ok, rule, "api::Doc::close", "close[handle-%s]" % ("already-closed" if closed else "open"), "returns %s, sends %s; spec: %s" % (got[:80], sent, spec), b.sp)
+
+
+def check_doc_set(ctx, rule):
+    """the write path of the public API (`Doc::set_bytes` -> RPC `doc_set`): the value is stored as a blob and ONE local insert is
+    offered to the store actor for the request's own document, author and key with the hash of exactly that blob and the length
+    of exactly that value; the entry answered is read back for the same (document, author, key); a refused insert (read-only
+    document, closed document) is reported and nothing is answered"""
+    from . import feval as E
+    f = ctx.facts
+    b = f.body(API + "doc_set")
+    ctx.touch(*f.family(b.path))
+    for fail in (None, "add_bytes", "insert_local", "get_exact", "get_exact-none"):
+        log = []
+
+        def oracle(kind, name, payload, site):
+            if kind == "call":
+                t, args, it = payload
+                path = t["f"].get("path") or ""
+                names = [it.tokname(a).strip("&*") for a in args]
+                if path.startswith("actor::SyncHandle::") and name not in ("into_future", "poll", "clone"):
+                    return E.Tok("fw.%s(%s)" % (name, ",".join(names[1:])))
+                if name == "blob_store":
+                    return E.Tok("blobs")
+                if name == "add_bytes":
+                    log.append("add_bytes(%s)" % ",".join(names[1:]))
+                    return E.Tok("adding(%s)" % names[1])
+                if name in ("temp_tag", "with_tag", "with_named_tag") and names and names[0].startswith("adding("):
+                    return E.Tok("fut:tag-of(%s)" % names[0][len("adding("):-1])
+                if name == "hash" and names and names[0].startswith("tag-of("):
+                    return E.Tok("hash-of(%s)" % names[0][len("tag-of("):-1])
+                if name == "len" and names and names[0].startswith("req."):
+                    return E.Tok("len-of(%s)" % names[0])
+                if name == "clone" and names and names[0].startswith("req."):
+                    return args[0]
+                if name == "new" and "RpcError" in path + (t["f"].get("full") or ""):
+                    return E.Tok("rpc-error")
+                if name == "deref" and args:
+                    return args[0]
+                return None
+            if kind == "cast" or kind == "call":
+                return None
+            if kind == "await":
+                nm = str(name)
+                if nm.startswith("fut:tag-of("):
+                    return E.Err(E.Tok("blob-error")) if fail == "add_bytes" else E.Ok(E.Tok(nm[4:]))
+                if nm.startswith("fw."):
+                    m = nm[3:]
+                    meth = m.split("(")[0]
+                    log.append(m)
+                    if meth == fail:
+                        return E.Err(E.Tok("%s-error" % meth))
+                    if meth == "get_exact":
+                        return E.Ok(E.NONE if fail == "get_exact-none" else E.Some(E.Tok("entry-read-back")))
+                    return E.Ok(E.Tok("result-of-%s" % meth))
+            return None
+        fields = [x["name"] for x in f.adt(PROTO + "SetRequest")["variants"][0]["fields"]]
+        req = E.struct(f, PROTO + "SetRequest", **{n: E.Tok("req.%s" % n) for n in fields})
+        key = "api-set[%s]" % ("all-ok" if fail is None else fail + "-fails")
+        try:
+            out, hp, ev = E.run_async(f, API + "doc_set", [E.href("self"), req], {"self": E.Tok("rpc-actor")}, oracle, inline=tuple(p for p in f.bodies if p.startswith(API)))
+            got = E.describe(out, f)
+        except E.Unsupported as e:
+            ctx.bad(rule, b.path, key, "UNSUPPORTED-FORM: %s" % e, b.sp)
+            continue
+        want_ins = "insert_local(req.doc_id,req.author_id,req.key,hash-of(req.value),len-of(req.value))"
+        want_get = "get_exact(req.doc_id,req.author_id,req.key,0)"
+        problems = []
+        if fail is None:
+            if log != ["add_bytes(req.value)", want_ins, want_get]:
+                problems.append("steps %s, spec %s" % (log, ["add_bytes(req.value)", want_ins, want_get]))
+            if got != "Ok(SetResponse(entry-read-back))":
+                problems.append("answers %s" % got)
+        else:
+            if not got.startswith("Err("):
+                problems.append("%s but the handler answers %s" % (fail, got))
+            allowed = {"add_bytes": ["add_bytes(req.value)"], "insert_local": ["add_bytes(req.value)", want_ins]}.get(fail, ["add_bytes(req.value)", want_ins, want_get])
+            if log != allowed:
+                problems.append("steps %s, spec %s" % (log, allowed))
+        ctx.check(not problems, rule, b.path, key, "doc_set -> %s after %s" % (got, log), b.sp, bad_detail="; ".join(problems))
